@@ -72,6 +72,28 @@ CLAIMED["C15"] = dict(
     ref="DESIGN.md section 2 (C15)",
     technique="TLA+ spec + TLC exhaustive model checking (non-interference invariant over all scripts and breakpoint sets) + spec->code replay of every behaviour")
 
+CLAIMED["C06"] = dict(
+    text="FJMFormat.tla defines the writer's acceptance rule (what the format can represent), the exact file bytes of versions 0-2 "
+         "(version 3: an opaque injective codec) and the reader's decoding incl. relative-jump re-basing on limb numbers; TLC checks RoundTrip "
+         "(Decode(FileBytes(calls)) = ExpectedImage(calls)) and the torn-prefix property exhaustively over bounded writer call sequences at "
+         "w=8/16 x versions 0-2; every emitted sequence is performed on the real Writer (per-call accept/refuse, byte-exact file, version 3 "
+         "alongside 2) and read back; generated sequences at all widths are judged record by record by TLC (Trace_FJMFormat): acceptance, bytes, "
+         "loaded segments, every loaded word, zero tails, invalidity outside segments.",
+    note="Trusted: FJMFormat.tla; TLC; LZMA treated as opaque. Bounded: exhaustive part <=3 segments, <=6 data words at w=8/16; other widths, "
+         "high addresses, zero tails and out-of-range arguments by seeded generation.",
+    ref="DESIGN.md section 2 (C06/C10)",
+    technique="TLA+ spec of writer/file/reader + TLC exhaustive model checking (round trip as invariant) + spec->code replay and TLC trace validation of recorded writer sequences")
+CLAIMED["C10"] = dict(
+    text="Same FJMFormat.tla. (A) every writer sequence TLC emits is written by the real Writer and cut at EVERY byte offset: each strict prefix "
+         "must raise the read error or load exactly the same image, and for versions 0-2 only the prefixes TLC lists as decodable may be accepted "
+         "(TornPrefixRejectedOrSame is an invariant of the spec). (B) single-field corruptions of every header/table field at every width/version, "
+         "payload damage, appended/removed bytes and random strings are opened with the real Reader; TLC judges each outcome against Decode "
+         "(the WellFormed obligations); any other exception, a hang (20 s) or an allocation out of proportion to the file size is a violation.",
+    note="Trusted: FJMFormat!Decode as the definition of a consistent file; the version-3 payload is decompressed by the harness as an oracle about "
+         "the input. 'For all byte strings' is sampled: structured corruptions are enumerated, the unstructured rest is seeded random.",
+    ref="DESIGN.md section 2 (C06/C10)",
+    technique="TLA+ spec + TLC (torn-prefix invariant over all cut points) + exhaustive cut replay and TLC-judged reader outcomes on corrupted/random byte strings")
+
 NOT_YET = {}
 
 
